@@ -30,6 +30,13 @@
         calls  := '-' | <nat> {'.' <nat>}        item indices whose handler ran, in order
         obs    := '-' | <idx> ':' <val> {'.' …}  values read by the handlers, in order
 
+    batch.mw <chain> <request>      the loop around a batch-item middleware chain (model: `Batch.loopG`)
+        chain := <stage> {',' <stage>}           in registration order (outermost first)
+        stage := 'T' | ('M' | 'R' | 'E') [<idx> {'.' <idx>}]
+                 T transparent; for the items listed: M answers success whatever the rest of the chain returned,
+                 R refuses without calling next (returns (nil, err)), E calls next and returns its item with an error
+      → ok <ver> <count> <ritems> entered=<calls>     entered: the items handed to the chain, in order
+
     place.run <mode> <request> {' | ' <request>}
         mode := 'seq' | 'nest' | 'par' | 'il:' <rid> {'.' <rid>}
       Request i of the scenario is request id i. `il` lists who performs its next *scheduled* step
@@ -124,6 +131,43 @@ def renderOut (o : Out) : String :=
     ++ " calls=" ++ joinOr "." (o.calls.map toString)
     ++ " obs=" ++ renderObs o.obs
 
+structure MwStage where
+  kind : Char
+  set : List Nat
+
+private def parseStage (s : String) : Option MwStage :=
+  match s.toList with
+  | [] => none
+  | k :: rest =>
+    if k = 'T' ∨ k = 'M' ∨ k = 'R' ∨ k = 'E' then
+      if rest.isEmpty then some { kind := k, set := [] }
+      else ((String.ofList rest).splitOn ".").mapM String.toNat? |>.map fun l => { kind := k, set := l }
+    else none
+
+/-- `executeItemWithMiddleware` with the chain installed, as an item executor for `loopG`. -/
+private def chainItem (srv : Srv) (chain : List MwStage) (i : Nat) (ph : Val) (it : Batch.Item) : GItemOut :=
+  let rec go : List MwStage → GItemOut
+    | [] => plainItem srv i ph it
+    | st :: rest =>
+      if st.set.contains i then
+        if st.kind = 'R' then { ri := { op := it.op, id := it.id, failed := true, reason := 0 }, ph := 0 }
+        else if st.kind = 'M' then
+          { ri := { op := it.op, id := it.id, failed := false, reason := 0 }, ph := (go rest).ph }
+        else if st.kind = 'E' then { ri := { (go rest).ri with failed := true }, ph := 0 }
+        else go rest
+      else go rest
+  go chain
+
+def mwRun (chain : List MwStage) (srv : Srv) (req : Req) : String :=
+  if Accepted srv req then
+    let (items, entered) := loopG (chainItem srv chain) (req.opt == optStop) req.items 0 false 0
+    "ok " ++ toString req.ver.1 ++ "." ++ toString req.ver.2 ++ " " ++ toString req.count
+      ++ " " ++ joinOr "," (items.map renderRItem) ++ " entered=" ++ joinOr "." (entered.map toString)
+  else
+    let o := execFull srv req
+    "ok " ++ toString o.resp.ver.1 ++ "." ++ toString o.resp.ver.2 ++ " " ++ toString o.resp.count
+      ++ " " ++ joinOr "," (o.resp.items.map renderRItem) ++ " entered=-"
+
 /-- the steps of a request, each marked with whether the harness schedules it (`true`: handler
     access) or it is performed by the library (`false`: the `Clear` of `handleBatchItemError`). -/
 private def markedLoop (srv : Srv) (stop : Bool) : List Batch.Item → Bool → List (PAct × Bool)
@@ -177,6 +221,11 @@ def handleBatch (cmd arg : String) : Option String :=
     match parseRequest arg with
     | some (srv, req) => renderOut (execFull srv req)
     | none => "bad-op"
+  | "batch.mw" => some <|
+    let (ch, rest) := splitCmd arg
+    match (ch.splitOn ",").mapM parseStage, parseRequest rest with
+    | some chain, some (srv, req) => mwRun chain srv req
+    | _, _ => "bad-op"
   | "place.run" => some <|
     let (mode, rest) := splitCmd arg
     match (rest.splitOn " | ").mapM parseRequest with
